@@ -24,6 +24,7 @@ type Ctx struct {
 	includeValidator *types.Func
 	pureNN           map[*ssa.Function]int
 	dispatch         map[string]*types.Func
+	pasteR           *pasteRoles
 }
 
 type propFunc func(c *Ctx)
